@@ -9,11 +9,11 @@ COQ_TARGETS = ["props/C07.vo"]
 THEOREMS = [("C07", ["C07_ns_edge_def", "C07_ns_edge_ref", "C07_resolve", "C07_resolve_iff", "C07_reject_unknown_reference",
                      "C07_reject_duplicate_definition", "C07_reject_missing_attribute", "C07_no_unconditional_cycle",
                      "C07_cycle_check_exact", "C07_forward_resolution",
-                     "C07_any_order", "C07_any_order_iff", "C07_any_order_definitions", "C07_any_order_canonical",
+                     "C07_any_order", "C07_any_order_iff", "C07_any_order_definitions", "C07_any_order_canonical", "C07_any_order_canonical_any_fuel", "C07_any_order_fingerprint",
                      "C07_backward_is_any_order", "C07_any_order_backward"])]
 PROOF_FILES = ["proofs/SchemaTextProofs.v", "proofs/ParseResolveDefs.v", "proofs/ParseBridge.v", "proofs/ParseLayout.v", "proofs/ParseCf.v",
                "proofs/ParseRejectProofs.v", "proofs/ParseResolveProofs.v", "proofs/ParseForwardDefs.v", "proofs/ParseForwardLayout.v",
-               "proofs/ParseForwardProofs.v", "proofs/ParseForwardHoist.v", "props/C07.v"]
+               "proofs/ParseForwardProofs.v", "proofs/ParseForwardHoist.v", "proofs/ParseForwardCanon.v", "props/C07.v"]
 TRUSTED_BASE = [
     "Coq 8.16.1 kernel; no axioms (Print Assumptions: closed)",
     "spec/PcfSpec.v: the Parsing Canonical Form and the fullname rules written from the Avro specification on the JSON AST (no graph); extracted as the oracle for the crate's canonical form text (hook H1)",
